@@ -96,6 +96,17 @@ fn run_case(db_def: &DbDef, q: &Query, force_unq: bool, model: &mut model::Model
     rep.count(if unq { "names_unqualified" } else { "names_qualified" });
     let mut db = Db::new();
     db_def.load(&mut db);
+    // one case in three runs on a database with secondary indexes (single and composite, over
+    // random columns): the reference semantics knows no indexes, the result must not change
+    let h = text_hash(&case_id);
+    let mut index_script = String::new();
+    if h % 3 == 1 {
+        for ix in random_index_sql(&mut Rng::new(h), db_def) {
+            db.must(&ix);
+            index_script.push_str(&format!("{};\n", ix));
+        }
+        rep.count("database_with_secondary_indexes");
+    }
     let out = db.query(&sql);
     let reply = model.ask(&req);
     let m = parse_ref(&reply);
@@ -104,7 +115,7 @@ fn run_case(db_def: &DbDef, q: &Query, force_unq: bool, model: &mut model::Model
     for f in &feats {
         rep.count(&format!("feature_{}", f));
     }
-    let replay = || format!("{}{};\n-- model request: {}\n-- engine: {}\n-- model:  {}", db_def.script(), sql, req, out.brief(), reply);
+    let replay = || format!("{}{}{};\n-- model request: {}\n-- engine: {}\n-- model:  {}", db_def.script(), index_script, sql, req, out.brief(), reply);
     match (&out, &m) {
         (Out::Panic(p), _) => {
             rep.case(&case_id, true);
